@@ -35,6 +35,7 @@ import NadaVerif.Lemmas.MonoErr
 import NadaVerif.Lemmas.Fuel
 import NadaVerif.Lemmas.Exact
 import NadaVerif.Props.C01
+import NadaVerif.Lemmas.Helpers
 
 namespace NadaVerif.C08
 open NadaVerif NadaVerif.Lemmas
@@ -224,5 +225,14 @@ example :
     (runCmds { st := ⟨3, opsA, ["1Integer", "7Integer"]⟩ } laterProg).1.st.lookup 6 =
       some (.binary "Addition" 4 5 (.scalar "SecretInteger")) := by
   decide +kernel
+
+/-- **The helper modules a program runs against are its own and current.**  After any history of compilations (programs of any
+directories, importing any helpers) and any edits of the files in between, every helper module loaded while the next program is
+compiled was imported from that program's directory, from the file as it is on disk now (`Runtime/Helpers.lean`: the registry of
+`compile._program_imports` as a state machine; the three repairs of the campaign — helpers of another directory, a changed helper,
+a helper that imports a changed one — are what makes `enter` establish this). -/
+theorem helpers_current_after_history (hist : List Runtime.Step) (s : Runtime.Step) :
+    Runtime.Fresh s.disk s.dir (Runtime.compileFrom s.disk s.dir s.names (Runtime.runSteps [] hist)).1 :=
+  Runtime.compileFrom_fresh s.disk s.dir s.names _
 
 end NadaVerif.C08
